@@ -140,11 +140,11 @@ def tag_values(F, fid, watch, const_names, const_domain):
     return out, None
 
 
-def run(ctx, F, rule="E-CACHE"):
+def run(ctx, F, rule="E-CACHE", crates=("oxidd_rules_",)):
     """returns number of cache-using functions examined"""
     users = {}
     for fid, h in sorted(F.hir.items()):
-        if not fid.startswith("oxidd_rules_"):
+        if not any(fid.startswith(c) for c in crates):
             continue
         gets, adds = [], []
         for c in H.calls(h["body"]):
@@ -351,12 +351,12 @@ def sym(e, env):
     return "<%s>" % k
 
 
-def check_hit_equals_miss(ctx, F, rule="E-CACHE.hit"):
+def check_hit_equals_miss(ctx, F, rule="E-CACHE.hit", crates=("oxidd_rules_",)):
     """the value returned on a cache hit is the same function of the cached value as the value returned on the
     miss path is of the value being inserted"""
     n = 0
     for fid, h in sorted(F.hir.items()):
-        if not fid.startswith("oxidd_rules_"):
+        if not any(fid.startswith(c) for c in crates):
             continue
         # find `if let Some(x) = <..>.get*(..) { ...; return Ok(E) }`
         hit = None
